@@ -71,7 +71,7 @@ Fixpoint sim_lock (t1 : stree) (t2 : tree) {struct t1} : option (list (nat * nat
     | Leaf (LConsume q2) => match cut_of t1 with Some i => Some [(i, q2)] | None => None end
     | Leaf (LRet r2 q2 adv2) =>
         match t1 with
-        | TRet _ r1 i adv1 => if res_eqb r1 r2 && Bool.eqb adv1 adv2 then Some (if is_yield r1 then [(i, q2)] else []) else None
+        | TRet _ r1 i adv1 => if res_eqb r1 r2 && (Bool.eqb adv1 adv2 || negb (is_yield r1)) then Some (if is_yield r1 then [(i, q2)] else []) else None
         | _ => None end
     | Act p2 k2 => match t1 with TAct _ p1 k1 => if N.eqb p1 p2 then sim_lock k1 k2 else None | _ => None end
     | Test c2 a2 b2 =>
@@ -111,6 +111,8 @@ Inductive outcome := OCont (i : nat) | ORet (r : res) (i : nat) (adv : bool).
 Inductive seval : stree -> sym -> D -> list item -> outcome -> D -> Prop :=
 | SE_cons i s x : seval (TCons i) s x [] (OCont i) x
 | SE_ret c r i adv s x : seval (TRet c r i adv) s x [] (ORet r i adv) x
+| SE_ret_term c r i adv adv' s x : is_yield r = false -> seval (TRet c r i adv) s x [] (ORet r i adv') x   (* where the cursor stands at a
+                                                                     terminal result is the business of the result-code protocol (C10), not of the reading *)
 | SE_act c p k s x es o x' : seval k s (exec p s x) es o x' -> seval (TAct c p k) s x (IPrim p :: es) o x'
 | SE_test c t a b s x es o x' :
     seval (if evalt t s x then a else b) s x es o x' -> seval (TTest c t a b) s x (ITest t (evalt t s x) :: es) o x'
@@ -151,9 +153,11 @@ Proof.
   - (* TRet *) cbn [sim_lock] in HL. destruct t2 as [[q2|r2 q2 adv2]|p2 k2|c2 a2 b2|]; try discriminate.
     + cbn [evali] in HE. inversion HE; subst. apply (LeafC (TRet c r1 i adv1) q2 succs HL).
     + cbn [evali] in HE. inversion HE; subst.
-      destruct (res_eqb r1 r2 && Bool.eqb adv1 adv2) eqn:E; [|discriminate].
-      apply andb_prop in E as [E1 E2]. apply res_eqb_ok in E1. apply Bool.eqb_prop in E2. subst.
-      exists i. split; [constructor|]. intros Y. rewrite Y in HL. inversion HL; subst. left; reflexivity.
+      destruct (res_eqb r1 r2 && (Bool.eqb adv1 adv2 || negb (is_yield r1))) eqn:E; [|discriminate].
+      apply andb_prop in E as [E1 E2]. apply res_eqb_ok in E1. subst r2. apply orb_prop in E2 as [E2|E2].
+      * apply Bool.eqb_prop in E2. subst.
+        exists i. split; [constructor|]. intros Y. rewrite Y in HL. inversion HL; subst. left; reflexivity.
+      * apply negb_true_iff in E2. exists i. split; [apply SE_ret_term; exact E2|]. intros Y. congruence.
   - (* TAct *) cbn [sim_lock] in HL. destruct t2 as [[q2|r2 q2 adv2]|p2 k2|c2 a2 b2|]; try discriminate.
     + cbn [evali] in HE. inversion HE; subst. apply (LeafC (TAct c p k) q2 succs HL).
     + destruct (N.eqb p p2) eqn:E; [|discriminate]. apply N.eqb_eq in E. subst p.
